@@ -501,6 +501,28 @@ impl Case for TableCase {
     }
 }
 
+/// the presets and the derive builder of `options.rs`, as the library returns them
+pub fn preset_cases() -> Vec<TableCase> {
+    use xml_schema_generator::{Options, SortBy};
+    let tok = |which: &str, o: Options| TableCase {
+        line: format!(
+            "P {} OP {} {} {} {}",
+            which,
+            enc(&o.text_identifier),
+            enc(&o.attribute_prefix),
+            enc(&o.derive),
+            if let SortBy::XmlName = o.sort { "N" } else { "U" }
+        ),
+        desc: format!("Options::{}", which),
+    };
+    vec![
+        tok("quick_xml_de", Options::quick_xml_de()),
+        tok("serde_xml_rs", Options::serde_xml_rs()),
+        tok("quick_xml_de.derive", Options::quick_xml_de().derive("Debug, X")),
+        tok("serde_xml_rs.derive_empty", Options::serde_xml_rs().derive("")),
+    ]
+}
+
 pub fn in_sigma(c: char) -> bool {
     let n = c as u32;
     n < 128 || (0xC0..=0xFE).contains(&n) && n != 0xD7 && n != 0xF7 || (0x400..=0x45F).contains(&n) || (0x4E00..=0x4E3F).contains(&n)
